@@ -26,6 +26,7 @@ func c11Gen(seed uint64, run int, tier string) *Case {
 	c := &Case{Cfg: map[string]int64{}}
 	genSrvCfg(r, c, tier)
 	c.Cfg["nconn"] = 2 // conn 0: victim, conn 1: bystander
+	c.Cfg["autorel"] = int64(r.Intn(2)) // parked implementation calls may wake up in the middle of activity
 	c.Cfg["cutmode"] = int64(r.Intn(nCutModes))
 	c.Cfg["cutwhen"] = int64(r.Pick(0, 1, 1, 2)) // 0: at a drawn step, 1: at first quiescence (requests parked), 2: after everything was answered
 	c.Cfg["cutstep"] = int64(r.Intn(700))
